@@ -77,7 +77,7 @@ func runC14(c *ctx) error {
 		ss := stepSource{src, idx}
 		st := cmds[idx]
 		k := core.Pick(rng, keys)
-		repo := core.Pick(rng, []string{"git@github.com:o/r.git", "https://example.com/r", "", "repo\"quoted"})
+		repo := core.Pick(rng, []string{"git@github.com:o/r.git", "https://example.com/r", "", "repo\"quoted", "https://example.com/acme/toolkit", "ssh://host/acme/agent/"})
 		penv := randPenv(rng, st)
 		sig, payload0, err := signStep(k, st, repo, penv)
 		if err != nil {
@@ -269,6 +269,13 @@ func runC14(c *ctx) error {
 				differ("matrix gains an adjustment", s2, repo, copyEnv(penv))
 			}
 		}
+		if len(st.Plugins) >= 1 {
+			if s2 := ss.fresh(); s2 != nil && len(s2.Plugins) >= 1 {
+				s2.Plugins[0].Source = withPluginSuffix(s2.Plugins[0].Source)
+				differ("plugin source gains the -buildkite-plugin suffix", s2, repo, copyEnv(penv))
+			}
+		}
+		differ("repository URL loses its last character", st, trimLast(repo), copyEnv(penv))
 		if len(st.Plugins) >= 2 && st.Plugins[0].FullSource() != st.Plugins[1].FullSource() {
 			s2 := ss.fresh()
 			s2.Plugins[0], s2.Plugins[1] = s2.Plugins[1], s2.Plugins[0]
@@ -322,3 +329,10 @@ func runC14(c *ctx) error {
 }
 
 var _ = fmt.Sprint
+
+func trimLast(s string) string {
+	if s == "" {
+		return "x"
+	}
+	return s[:len(s)-1]
+}
